@@ -100,6 +100,7 @@ Definition ref_msg_slot (num : Z) (idx : nat) (v : val) : bytes :=
   | VMsg None => []
   | VMsg (Some (fs, u)) => spec_ld num (rec idx fs u)
   | VEmb fs u => let p := rec idx fs u in match p with [] => [] | _ => spec_ld num p end
+  | VOpt (Some x) => match x with VEmb fs u => spec_ld num (rec idx fs u) | _ => [] end   (* selected by-value oneof member: always written *)
   | VList l => flat_map (ref_msg_elem num idx) l
   | _ => []
   end.
@@ -381,6 +382,9 @@ Definition apply_known (m : mdesc) (slot : nat) (f : fdesc) (t : token) (fs : li
           else if i_pointer i then
             match rec idx b (match cur with VMsg (Some x) => x | _ => zero_of idx end) with
             | Some x => put (VMsg (Some x)) | None => None end
+          else if i_oneof i then     (* by-value member of a oneof: merged into the selected wrapper, else into a fresh one *)
+            match rec idx b (match cur with VOpt (Some (VEmb fs1 u1)) => (fs1, u1) | _ => zero_of idx end) with
+            | Some x => put (VOpt (Some (VEmb (fst x) (snd x)))) | None => None end
           else
             match rec idx b (match cur with VEmb fs1 u1 => (fs1, u1) | _ => zero_of idx end) with
             | Some x => put (VEmb (fst x) (snd x)) | None => None end
